@@ -187,9 +187,13 @@ fn text_of_tokens(toks: &[&str]) -> String {
     for line in toks.split(|t| *t == "|") {
         let conv: Vec<String> = line
             .iter()
-            .map(|t| match ratio_token(t) {
-                Some(v) => format!("{v}"),
-                None => (*t).to_string(),
+            .map(|t| {
+                // a comment may be glued to the token: only the part before `#` is data
+                let (head, tail) = t.split_at(t.find('#').unwrap_or(t.len()));
+                match ratio_token(head) {
+                    Some(v) => format!("{v}{tail}"),
+                    None => (*t).to_string(),
+                }
             })
             .collect();
         text.push_str(&conv.join(" "));
